@@ -504,12 +504,97 @@ def check(run: Run) -> None:
     from ..daterules import no_memoised_clock
 
     no_memoised_clock(run, model, "C04.R3", ["zorg.service.compiler._api.build_zorg_query", "zorg.shared.dates.from_date_spec"], floor=2)
+    # ------------------------------------------------------------------ R6 omitted clauses
+    clause_defaults(run, model, I, specs)
     # ------------------------------------------------------------------ R5 nesting
     nesting(run, model, I, specs)
     run.units = dict(grammar_rules=len(g.rule_names), where_atom_alternatives=alts, priority_spellings=n_sp)
     run.trusted = ["CPython ast", "antlr4 ATNDeserializer", "ParseTreeWalker contract", "dateutil.relativedelta clamping"]
     run.assumptions += ["token texts are abstracted as fixed-length strings over character classes (ids: 3 chars) or as the finite set of literal spellings",
                         "render->compile round trip not decided (no renderer exists)", "Query defaults are taken from the code"]
+
+
+def clause_defaults(run: Run, model: PyModel, I: Interp, specs: Specs) -> None:
+    """Omitted clauses keep their defaults.  The listener is driven in ParseTreeWalker order (every enter<Rule> / exit<Rule> the compiler overrides, whatever they are called)
+    over the derivations of `S note`, `W o` and `S note W o` -- none of which writes an O or a G clause -- starting from a query object whose order_by / group_by hold
+    sentinels: afterwards both must still hold them (the query keeps whatever its class defaults to), and `W o` must leave the select field alone as well."""
+    ci = model.cls(CLS)
+
+    def fire(kind: str, rule: str, comp, ctx, st):
+        name = f"{kind}{rule[0].upper()}{rule[1:]}"
+        m = model.find_method(ci, name)
+        if m is None or m.cls is None or m.cls.qualname != ci.qualname:
+            return None
+        r = _call(I, model, name, comp, ctx, st)
+        bad = [v for v, _ in r if isinstance(v, Raised)]
+        if len(r) != 1 or bad:
+            raise RuntimeError(f"{name}: {bad[0].exc if bad else str(len(r)) + ' outcomes'}")
+        return None
+
+    def walk(node, comp, st):
+        rule, ctx, kids = node
+        fire("enter", rule, comp, ctx, st)
+        for k in kids:
+            walk(k, comp, st)
+        fire("exit", rule, comp, ctx, st)
+
+    def select_tree():
+        note = specs.ctx("note", "note")
+        field = specs.ctx("select_field", "note", note=note)
+        body = specs.ctx("select_body", "note", select_field=field)
+        sel = specs.ctx("select", "S note", select_body=body)
+        return sel, ("select", sel, [("select_body", body, [("select_field", field, [("note", note, [])])])])
+
+    def where_tree():
+        tc = specs.ctx("note_type_char", "o", LOWER_O=specs.ctx("tok", "o"))
+        nt = specs.ctx("note_type", "o", note_type_char=[tc])
+        atom = specs.ctx("where_atom", "o", note_type=nt)
+        af = specs.ctx("and_filter", "o", where_atom=[atom])
+        orf = specs.ctx("or_filter", "o", and_filter=[af])
+        wb = specs.ctx("where_body", "o", or_filter=orf)
+        wh = specs.ctx("where", "W o", where_body=wb)
+        return wh, ("where", wh, [("where_body", wb, [("or_filter", orf, [("and_filter", af, [("where_atom", atom, [("note_type", nt, [("note_type_char", tc, [])])])])])])])
+
+    n = 0
+    for label, has_s, has_w in (("S note", True, False), ("W o", False, True), ("S note W o", True, True)):
+        st = State()
+        q = st.alloc(HObj("obj", cls="zorg.domain.models._query.Query", fields=dict(select=Opaque("default:select"), where=None, order_by=Opaque("default:order_by"), group_by=Opaque("default:group_by"))))
+        I.ctx_stack.append((ci.module, ci))
+        try:
+            comp = I.construct(CLS, [q], {}, st)[0][0]
+        finally:
+            I.ctx_stack.pop()
+        oag = specs.ctx("order_and_group", "")
+        kids = []
+        kw = {}
+        if has_s:
+            sel, t = select_tree()
+            kids.append(t)
+            kw["select"] = sel
+        if has_w:
+            wh, t = where_tree()
+            kids.append(t)
+            kw["where"] = wh
+        kids.append(("order_and_group", oag, []))
+        inner_rule = "where_query" if has_w else "select_query"
+        inner = specs.ctx(inner_rule, label, order_and_group=oag, **kw)
+        query = specs.ctx("query", label, **{inner_rule: inner})
+        prog = specs.ctx("prog", label, query=query)
+        try:
+            walk(("prog", prog, [("query", query, [(inner_rule, inner, kids)])]), comp, st)
+        except RuntimeError as e:
+            run.undecided("C04.R6", "ZorgQueryCompiler", f"`{label}`: {e}")
+            continue
+        if st.imprecise:
+            run.undecided("C04.R6", "ZorgQueryCompiler", f"`{label}`: " + "; ".join(st.imprecise[:2]))
+            continue
+        n += 1
+        f = st.obj(q).fields
+        touched = [k for k in ("order_by", "group_by") + (() if has_s else ("select",)) if not (isinstance(f.get(k), Opaque) and f[k].cls == f"default:{k}")]
+        run.check("C04.R6", f"`{label}`: the clauses it does not write keep their defaults", not touched, "ZorgQueryCompiler", f"`{label}`: {touched} overwritten",
+                  f"compiling `{label}` (no O, no G{'' if has_s else ', no S'} clause) overwrites {touched} with {[repr(f.get(k))[:40] for k in touched]}: an omitted clause no longer takes its default "
+                  "(e.g. a select-only query loses the default ordering)", file=FILE)
+    run.floor("clause-default derivations walked", n, 3)
 
 
 # ----------------------------------------------------------------------------------------- nesting
